@@ -3,10 +3,14 @@
     bruteForce nodes carry a cursor (firstDone, docID) living in a heap, d.simplify for Meta atoms, and the
     per-shard docMatchTreeCache (key -> node BY REFERENCE, bounded size, eviction by an arbitrary choice
     function) threaded through a HISTORY of searches on one loaded shard.
-    Sequential histories are covered in full.  The concurrent half is PARTIAL: interleavings of the loop
-    iterations of searches are modelled (theorems ..._partial below), data races and finer-grained
-    interleavings (inside a tree build, inside prepare) are not; a -race stress run is supporting evidence. *)
-From ZV Require Import Lib.Base Model.DocCache Proofs.DocCache.
+    Sequential histories are covered in full.  Concurrency: (1) cursors — interleavings of the loop iterations of
+    searches (theorems ..._partial below; finer interleavings inside a tree build / prepare are not modelled);
+    (2) the sharing discipline of the cache — what a cached node shares between searches (the predicate closure,
+    possibly with a mutable memo cell) under interleavings of single accesses to the cell: independence holds
+    exactly when the shared part is immutable (iff theorem, refutation witness, instance for the code under check
+    via Generated/C04Sharing.v).  Go data races as such are outside the model; the concurrent-history run of both
+    tiers and the -race run of the thorough tier are the empirical part. *)
+From ZV Require Import Lib.Base Model.DocCache Proofs.DocCache Proofs.DocCacheMemo Generated.C04Sharing.
 
 (** One search of the repaired code, started in ANY state reachable by searches (any cache contents that are
     coherent with the shard, any heap), returns exactly the documents satisfying the query, in document
@@ -102,6 +106,74 @@ Proof.
 Qed.
 Print Assumptions C04_two_searches_any_schedule_partial.
 
+(** ---- the SHARING DISCIPLINE of the cache: what a cached node shares between searches must be immutable ----
+    Second half of Model/DocCache.v: the predicate closure handed to every search of a Meta atom may carry a mutable
+    memo cell (lastRepo, lastWant); evaluations are interleaved at the granularity of single accesses to the cell.
+    (d) a search whose closure is IMMUTABLE (no cell; /repo) returns exactly the atom's documents under ANY
+    interference whatsoever on the memo heap — no assumption on the environment. *)
+Theorem C04_immutable_shared_part_independent : forall env ps mh,
+  mt_acc (fst (mt_run_env env (mfuel ps) ps (mk_mthread None) mh)) = mref ps.
+Proof. intros env ps mh. apply (memo_search_under_interference env ps None mh); [intros i h; exact I | exact I]. Qed.
+Print Assumptions C04_immutable_shared_part_independent.
+
+(** (e) a closure WITH a mutable memo is harmless as long as its cell is private to the search: any interference that
+    leaves that one cell alone (and the steps of a search touch no cell but their own: [mt_step_guarantee]). *)
+Theorem C04_private_memo_independent : forall env ps a mh,
+  (forall i h, a < length h -> a < length (env i h) /\ get_memo (env i h) a = get_memo h a) ->
+  a < length mh -> (forall r, fst (get_memo mh a) = Some r -> snd (get_memo mh a) = want ps r) ->
+  mt_acc (fst (mt_run_env env (mfuel ps) ps (mk_mthread (Some a)) mh)) = mref ps.
+Proof.
+  intros env ps a mh Henv Hlen Hcoh. apply (memo_search_under_interference env ps (Some a) mh); [exact Henv | split; assumption].
+Qed.
+Print Assumptions C04_private_memo_independent.
+
+Theorem C04_search_steps_keep_to_their_cell : forall ps th mh cell',
+  (forall a, mt_cell th = Some a -> cell' <> Some a) ->
+  match cell' with
+  | None => True
+  | Some b => b < length mh -> b < length (snd (mt_step ps th mh)) /\ get_memo (snd (mt_step ps th mh)) b = get_memo mh b
+  end.
+Proof. intros ps th mh cell' H. exact (mt_step_guarantee ps th mh cell' H). Qed.
+Print Assumptions C04_search_steps_keep_to_their_cell.
+
+(** (f) EXACTLY WHEN: two concurrent searches of the same atom, every shard, every schedule of their atomic steps —
+    both return the solo result if and only if the cache's discipline does not hand the same mutable memo cell
+    to both (immutable closure, or a private cell per node). *)
+Theorem C04_interleaving_independent_iff_shared_part_immutable : forall sh,
+  (forall ps sched, mpar_search sh ps sched = (mref ps, mref ps)) <-> sh <> ShareMutableMemo.
+Proof. exact sharing_iff. Qed.
+Print Assumptions C04_interleaving_independent_iff_shared_part_immutable.
+
+(** (g) the discipline /repo follows, read off index/matchtree.go by the translator (Generated/C04Sharing.v, regenerated
+    on every run): the closure stored in the cache writes no captured variable and a cache hit does not return the
+    cached node itself — so (f) and the cursor theorems above ([build true]) are about the code under check. *)
+Theorem C04_repo_follows_the_sharing_discipline :
+  meta_closure_sharing = ShareImmutable /\ meta_closure_captured_writes = 0 /\ meta_hit_returns_cached_node = false.
+Proof. repeat split; reflexivity. Qed.
+Print Assumptions C04_repo_follows_the_sharing_discipline.
+
+Theorem C04_repo_meta_atom_interleaving_independent : forall ps sched,
+  mpar_search meta_closure_sharing ps sched = (mref ps, mref ps).
+Proof. apply C04_interleaving_independent_iff_shared_part_immutable. discriminate. Qed.
+Print Assumptions C04_repo_meta_atom_interleaving_independent.
+
+(** a shared mutable memo: search B returns [1] instead of [0; 1] (schedule A, B, B), although the same two searches
+    one after the other (empty schedule) are both right — the memo is transparent for sequential histories *)
+Theorem C04_shared_mutable_memo_refuted :
+  mref memo_wit = [0; 1] /\
+  mpar_search ShareMutableMemo memo_wit memo_wit_sched = ([0; 1], [1]) /\
+  mpar_search ShareMutableMemo memo_wit memo_wit_sched <> (mref memo_wit, mref memo_wit) /\
+  mpar_search ShareMutableMemo memo_wit [] = (mref memo_wit, mref memo_wit).
+Proof. exact shared_memo_refuted. Qed.
+Print Assumptions C04_shared_mutable_memo_refuted.
+
+(** the atom-level reference [mref] is the result of the document-loop model for that atom *)
+Theorem C04_atom_reference_is_search : forall cf ps k s,
+  ndocs s = p_ndocs ps -> (forall d, meta s k d = want ps (repo_of ps d)) ->
+  fst (search true cf s (QMeta k) fresh) = mref ps.
+Proof. exact mref_is_search. Qed.
+Print Assumptions C04_atom_reference_is_search.
+
 (** The code before the repair (/repo 6b2af41): with the cache enabled the cached node keeps the cursor of the
     previous search; "meta.k" matching documents 0,1,2 of 4 returns [0;1;2] and then []. *)
 Theorem C04_history_refuted_before_fix :
@@ -137,3 +209,14 @@ Example C04_nonvacuous_interference :
   leaves t = [1; 3; 5] /\
   fst (doc_loop_env envl 5 4 t 0 (st_heap st') []) = [0; 1; 2].
 Proof. vm_compute. split; reflexivity. Qed.
+
+(** interference that rewrites every memo cell before every step does not disturb a search with an immutable closure;
+    private cells under a long alternating schedule; the shared cell under the same schedule goes wrong *)
+Example C04_nonvacuous_sharing :
+  let env := fun (i : nat) (h : mheap) => map (fun _ => (Some (i mod 2), Nat.even i)) h ++ [(Some 1, false)] in
+  mt_acc (fst (mt_run_env env (mfuel memo_wit) memo_wit (mk_mthread None) [(Some 1, false)])) = [0; 1] /\
+  let alt := [true; false; false; true; true; false; true; false; false; false; true; true] in
+  mpar_search SharePrivateMemo memo_wit alt = ([0; 1], [0; 1]) /\
+  mpar_search ShareImmutable memo_wit alt = ([0; 1], [0; 1]) /\
+  mpar_search ShareMutableMemo memo_wit alt = ([0; 1], [1]).
+Proof. vm_compute. repeat split. Qed.
